@@ -100,8 +100,34 @@ def call_distance(name, A, mode, L=None):
     raise KeyError(name)
 
 
+_BLAS_DONE = []
+
+
+def single_thread_blas():
+    """speed only: the pool runs one worker process per core, and OpenBLAS starts a thread per core in
+    each of them for matrix products beyond ~128 nodes (measured on a loaded machine: distance_bin on
+    211 nodes 33 s instead of 0.07 s).  Called once per worker before a scale-regime job."""
+    if _BLAS_DONE:
+        return
+    _BLAS_DONE.append(1)
+    import ctypes
+    import glob
+    import os
+    for lib in glob.glob(os.path.join(os.path.dirname(np.__file__), os.pardir, "numpy.libs", "libscipy_openblas*.so*")):
+        try:
+            L = ctypes.CDLL(lib)
+        except OSError:
+            continue
+        for sym in ("scipy_openblas_set_num_threads64_", "openblas_set_num_threads64_", "openblas_set_num_threads"):
+            if hasattr(L, sym):
+                getattr(L, sym)(1)
+                return
+
+
 def exec_job(job):
     import bct
+    if job.get("big"):
+        single_thread_blas()
     rec = base_record(job)
     mode = job["mode"]
     # the SAME mathematical matrix as another dtype / memory layout (rel_common): the record for
@@ -273,14 +299,14 @@ def jobs_for(K, mode, src, rng=None, variant=rc.PLAIN):
 # SCALE: more nodes than a narrow integer type can index or count (int8: 127, uint8: 255), paths
 # of more hops than that, walk counts beyond 2^63 and beyond float32 (3.4e38), path totals beyond
 # the exact range of float32 (2^24).  The verdicts stay TLC's (Trace_Distance: Big records).
-BIG_KINDS = ("ring+chords", "chain", "clique+path", "grid")
-# code sets per mode for the big inputs: the tie-rich small set, a single value, and a WIDE set whose
+BIG_KINDS = ("ring+chords", "chain", "clique+path", "grid", "longchain", "diamonds")
+# code sets per mode for the big inputs: the tie-rich small set or a single value; and a WIDE set whose
 # path totals (up to ~4e8, still < INF and exact in float64) leave the exact range of float32/int16
-BIG_CODES = {"bin": [[1]], "len": [[1, 2, 3], [1], [1, 3, 5, 1048577]],
-             "inv": [[1, 2, 4], [2], [1, 4, 1048576]]}
+BIG_CODES = {"bin": [[1]], "len": [[1, 2, 3], [1]], "inv": [[1, 2, 4], [2]]}
+WIDE_CODES = {"len": [1, 3, 5, 1048577], "inv": [1, 4, 1048576]}
 
 
-def big_support(rng, nmin, nmax, und=None, kinds=BIG_KINDS, p_split=0.3):
+def big_support(rng, nmin, nmax, und=None, kinds=BIG_KINDS, p_split=0.3, want_pos=False):
     """-> (name, n, connections, und): ring with chords, long chain (few chords), clique with a long
     path attached, grid; optionally cut into two components; directed variants keep every
     connection forwards and add the reverse with probability 1/4 (a directed ring has shortest
@@ -295,9 +321,14 @@ def big_support(rng, nmin, nmax, und=None, kinds=BIG_KINDS, p_split=0.3):
     elif kind == "chain":
         E = [(i, i + 1) for i in range(n - 1)]
         E += [tuple(rng.sample(range(n), 2)) for _ in range(rng.choice([0, 0, 2, 5]))]
+    elif kind == "longchain":                          # one chain, never cut: shortest paths of n-1 hops
+        E = [(i, i + 1) for i in range(n - 1)]
+        p_split = 0.0
     elif kind == "clique+path":
         m = rng.randint(8, 24)
         E = [(a, b) for a in range(m) for b in range(a + 1, m)] + [(x, x + 1) for x in range(m - 1, n - 1)]
+    elif kind == "diamonds":                           # chain of (n-1)/3 diamonds: 2^k tied shortest paths
+        n, E = diamond_chain((n - 1) // 3)
     else:
         a = rng.randint(8, 17)
         b = rng.randint(-(-nmin // a), nmax // a)
@@ -322,7 +353,48 @@ def big_support(rng, nmin, nmax, und=None, kinds=BIG_KINDS, p_split=0.3):
             if rng.random() < 0.25:
                 A.add((perm[y], perm[x]))
         E = sorted(A)
+    if want_pos:                                       # + position of every node in the construction
+        pos = [0] * n
+        for x in range(n):
+            pos[perm[x]] = x
+        return name, n, E, und, pos
     return name, n, E, und
+
+
+def big_inputs(rng, sizes):
+    """one big input per size range -> [(name, n, und, mode, codes, K, sources)]; sources = the rows
+    / sources whose hop counts and paths are judged: the first and the last node of the numbering
+    AND of the construction (the two ends of a chain), plus 3 drawn ones.  Every run visits every
+    regime: a quarter of the inputs (at least one) are uncut long chains (hop counts beyond 127), a
+    quarter (at least one) carry the wide code set; which size range gets which is drawn."""
+    k = len(sizes)
+    q = max(1, k // 4)
+    kinds = ["longchain"] * q + [None] * (k - q)
+    wides = [True] * q + [False] * (k - q)
+    rng.shuffle(kinds)
+    rng.shuffle(wides)
+    out = []
+    for (lo, hi), kind, wide in zip(sizes, kinds, wides):
+        name, n, edges, und, pos = big_support(rng, lo, hi, kinds=(kind,) if kind else BIG_KINDS, want_pos=True)
+        mode = rng.choice(["len", "inv"]) if wide else rng.choice(["len", "len", "inv", "bin"])
+        codes = WIDE_CODES[mode] if wide else rng.choice(BIG_CODES[mode])
+        sources = sorted(set([0, n - 1, pos.index(0), pos.index(n - 1)] + rng.sample(range(n), 3)))
+        out.append((name + ("/wide" if wide else ""), n, und, mode, codes,
+                    code_matrix(rng, n, edges, und, mode, codes=codes), sources))
+    return out
+
+
+def diamond_chain(k, width=2):
+    """k 'diamonds' in a row: hub - {width parallel nodes} - hub - ... : (width+1)k+1 nodes, width^j equally
+    short paths (= shortest walks) between hubs j diamonds apart - exact powers of two for width 2/4, i.e.
+    counts that wrap to exactly 0 in int32 (j >= 32/16) and int64 (j >= 64/32) and overflow float32 at 2^128"""
+    E, hub = [], 0
+    for d in range(k):
+        nxt = hub + width + 1
+        for x in range(hub + 1, hub + width + 1):
+            E += [(hub, x), (x, nxt)]
+        hub = nxt
+    return hub + 1, E
 
 
 def clique_path(rng, m, L, joined=True, copies=1):
@@ -436,18 +508,26 @@ def build_jobs(ctx):
         n, edges = clique_path(rng, m, L, joined=joins[k], copies=copies)
         K = code_matrix(rng, n, edges, True, "bin")
         jobs += [dict(j, big=1) for j in jobs_for(K, "bin", "clique+path", rng)]
+    # ---- scale regime 1b: chains of k diamonds (hub - 2 or 4 parallel nodes - hub ...): between hubs j diamonds
+    #      apart there are exactly 2^j (4^j) shortest walks - counts that wrap to exactly 0 in int32 and int64
+    #      for j >= 32 / 64 and overflow float32 at 2^128, on a sparse graph (binary distances, all ten calls)
+    for k, width in ([(rng.randint(66, 75), 2)] if q else [(rng.randint(20, 30), 2), (rng.randint(36, 48), 2),
+                                                            (rng.randint(66, 75), 2), (rng.randint(33, 40), 4),
+                                                            (rng.randint(128, 132), 2)]):
+        n, edges = diamond_chain(k, width)
+        perm = list(range(n))
+        if rng.random() < 0.5:
+            rng.shuffle(perm)
+        edges = sorted(set(tuple(sorted((perm[a], perm[b]))) for a, b in edges))
+        jobs += [dict(j, big=1) for j in jobs_for(code_matrix(rng, n, edges, True, "bin"), "bin", "diamonds", rng)]
     # ---- scale regime 2: 130..300 (thorough: ..400) nodes - more than an int8 / uint8 index or hop
     #      counter holds -, rings with chords, long chains, clique + path, grids, cut into two components
     #      or not, directed or not; lengths {1,2,3}, one value, or a wide set whose path totals leave
     #      the exact range of float32; 'inv' weights down to 2^-20.  distance_wei and distance_wei_floyd,
     #      judged row by row by the one-pass equation that only the true distance row solves
     #      (Distance!IsDistRow; hop counts for a drawn sample of sources: Distance!MinHopsRow).
-    for lo, hi in ([(130, 200), (257, 300)] if q else [(130, 160), (161, 256), (257, 300), (301, 400)] * 2):
-        name, n, edges, und = big_support(rng, lo, hi)
-        mode = rng.choice(["len", "len", "inv", "bin"])
-        codes = rng.choice(BIG_CODES[mode])
-        K = code_matrix(rng, n, edges, und, mode, codes=codes)
-        rows = sorted(set([0, n - 1] + rng.sample(range(n), 4)))
+    for name, n, und, mode, codes, K, rows in big_inputs(rng, [(130, 200), (257, 300)] if q else
+                                                         [(130, 160), (161, 256), (257, 300), (301, 400)] * 2):
         for fn in ("distance_wei", "distance_wei_floyd"):
             floyd = fn == "distance_wei_floyd"
             dt, lay = big_dtype(rng, mode, codes, floyd and TRANSFORM[mode] is None)
@@ -501,10 +581,15 @@ def run(ctx):
                 "pairs; seeded random graphs n in 6..%d (sparse, disconnected, isolated nodes, self-loops, single-"
                 "value code sets, directed and undirected) and structured families (paths, cycles, stars, complete, "
                 "complete bipartite, caterpillars, rings of cliques, equal/unequal components, isolated nodes; also "
-                "randomly oriented), all choices drawn independently from the seeded RNG; one record per real call; "
+                "randomly oriented), all choices drawn independently from the seeded RNG; scale regime: %d clique + "
+                "path inputs of 50..110 nodes (walk counts beyond 2^63 and 3.4e38; all ten calls) and %d inputs of "
+                "130..%d nodes (rings with chords, chains, clique + path, grids; lengths up to 2^20; distance_wei and "
+                "distance_wei_floyd); one record per real call; "
                 "non-trivial = distinct (input, mode) whose observed shortest paths include one of >= 2 edges"
                 % ("220 sampled digraphs on 4 nodes, 120 sampled graphs on 5 nodes" if ctx.quick
-                   else "every digraph on 4 nodes, every graph on 5 nodes", 9 if ctx.quick else 12))
+                   else "every digraph on 4 nodes, every graph on 5 nodes", 9 if ctx.quick else 12,
+                   len(set(str(j["K"]) for j in jobs if j.get("big") and j["kind"] != "distbig")),
+                   len(set(str(j["K"]) for j in jobs if j["kind"] == "distbig")), 300 if ctx.quick else 400))
     for kind in ("dist", "mean", "agree"):
         for j, r in zip(jobs, recs):
             if j["kind"] == kind and j["mode"] != "bin" and len(j["K"]) == 4:
@@ -529,7 +614,12 @@ def run(ctx):
         "a boolean array is given only to the routines documented for binary networks, the weight/length routines "
         "get uint8 instead; 'log' inputs stay float64 unless every weight is 1",
         "only ordered pairs of distinct nodes are judged (diagonals of breadthdist/reachdist are cycle lengths)",
-        "weights/lengths of the model graphs are chosen by the harness RNG (VERIF_SEED)"]
+        "weights/lengths of the model graphs are chosen by the harness RNG (VERIF_SEED)",
+        "records of more than 20 nodes are judged with cheaper equivalents of the L0 definitions, each cross-checked "
+        "against them by mc on every small input (DistanceImpl!FastOracleInv): hop distances by breadth-first levels, "
+        "the one-pass equation that only the true distance row solves (lengths >= 1), hop-count sets by increasing "
+        "distance (for the first/last node of the numbering and of the construction and 3 drawn sources), the mean "
+        "inverse to 10^-9; no drift prediction for them"]
     return ctx.finish()
 
 
